@@ -40,6 +40,25 @@ def rand_alignment(rng, thorough=False):
     return kind, list(zip(names, rows))
 
 
+def long_row_alignment(rng):
+    """rows with >= 512 residues: a gap run directly after residue 512 / 1024, and a row of exactly 512 residues followed by
+    trailing gaps (the readers grow their buffers in steps of 512)"""
+    kind = rng.choice(["dna", "protein"])
+    alpha = gen.DNA if kind == "dna" else gen.AA
+    k = rng.choice([1, 1, 2])
+    n = 512 * k
+    g = rng.randint(1, 9)
+    tail = rng.randint(0, 40)
+    r1 = gen.rand_seq(rng, alpha, n) + "-" * g + gen.rand_seq(rng, alpha, tail)
+    r2 = gen.rand_seq(rng, alpha, n) + "-" * (g + tail)
+    r3 = gen.rand_seq(rng, alpha, n + g + tail)
+    r4 = "-" * rng.randint(1, 5)
+    r4 = r4 + gen.rand_seq(rng, alpha, n + g + tail - len(r4))
+    rows = [r1, r2, r3, r4][:rng.randint(2, 4)]
+    names = ["L%d_%s" % (i, "".join(rng.choice(NAMECH) for _ in range(rng.randint(1, 8)))) for i in range(len(rows))]
+    return kind, list(zip(names, rows))
+
+
 def aln_args(aln):
     return " ".join("%s:%s" % (n.encode().hex(), r) for n, r in aln)
 
